@@ -303,6 +303,10 @@ func (e *Engine) contractWrites(c *Contract, ws *writeSet, sig *types.Signature,
 			ws.why = append(ws.why, "modifies * of "+c.Key)
 		case m == "big":
 			ws.keys["BigVal"] = true
+		case m == "ghosts":
+			for name := range e.db.Ghosts {
+				ws.keys["G:"+name] = true
+			}
 		default:
 			if _, ok := e.db.Ghosts[m]; ok {
 				ws.keys["G:"+m] = true
@@ -417,6 +421,11 @@ func (e *Engine) invEnv(fr *Frame, st *State, l *Loop) *SpecEnv {
 
 func (e *Engine) loopEnter(fr *Frame, st *State, l *Loop) {
 	fnKey := funcKey(fr.fn)
+	snap := st.clone()
+	if st.loopEntry == nil {
+		st.loopEntry = map[*Loop]*State{}
+	}
+	st.loopEntry[l] = snap
 	if l.Spec != nil {
 		if l.Spec.Header != "" && normWS(l.Spec.Header) != l.Text {
 			// not a failure by itself (a renamed loop variable is harmless): the invariants are checked against
@@ -436,6 +445,11 @@ func (e *Engine) loopEnter(fr *Frame, st *State, l *Loop) {
 	var autoFrame []string
 	if ws.all {
 		st.havocAll()
+		for k := range ws.keys {
+			if strings.HasPrefix(k, "G:") {
+				st.havocKey(k) // havocAll spares ghosts: those the loop may write are named in the write set
+			}
+		}
 		e.note(fmt.Sprintf("loop %d of %s: whole heap havocked (%s)", l.Ordinal, fnKey, strings.Join(ws.why, "; ")))
 	} else {
 		var ks []string
